@@ -393,6 +393,15 @@ def generate():
     out.append(f"def shape_nonblockClearedAfter : Bool := {'true' if 0 <= ircv < iclr else 'false'}")
     m = re.search(r'cmp::Ordering::Equal\s*=>\s*return\s+Err\(UnixError::Errno\(EAGAIN\)\)', crecv)
     out.append(f"def shape_pollTimeoutIsEagain : Bool := {'true' if m else 'false'}")
+    # the wait handed to poll(): `duration.as_<unit>().try_into().unwrap_or(-1)`
+    m = re.search(r'duration\.as_(secs|millis|micros|nanos)\(\)\.try_into\(\)\.unwrap_or\(-1\)', crecv)
+    if not m:
+        fail("UnixCmsg::recv: conversion of the timeout to poll()'s argument has an unexpected shape")
+    mul, div = {'secs': (1, 1000000), 'millis': (1, 1000), 'micros': (1, 1), 'nanos': (1000, 1)}[m.group(1)]
+    out.append(f"def pollUnitMul : Nat := {mul}")
+    out.append(f"def pollUnitDiv : Nat := {div}")
+    m = re.search(r'let\s+events\s*=\s*libc::POLLIN\s*\|\s*libc::POLLPRI\s*\|\s*POLLRDHUP\s*;', crecv)
+    out.append(f"def shape_pollEvents : Bool := {'true' if m else 'false'}  -- POLLIN | POLLPRI | POLLRDHUP")
     out.append("")
     # Router::run (C07/C17): which statement ends the loop on Shutdown, and how a closed wake-up is handled
     _, _, run = find_fn(router, 'run')
